@@ -244,7 +244,8 @@ class OutputReference:
                     break
                 overlap += 1
 
-            if overlap > largest_overlap:
+            # VV: the scope must be a prefix of the location, a partial overlap means the reference points elsewhere
+            if overlap == len(other_loc) and overlap > largest_overlap:
                 best = other_loc
                 largest_overlap = overlap
 
